@@ -1551,6 +1551,10 @@ def make_check_C11(tier):
                         params=dict(abiname=abiname, preserve=preserve, nscratch=nscratch, clobbers=cl,
                                     reads=[{"x64-elf": "rcx", "x64-pe": "rcx", "ia32-pe": "ecx", "arm64": "x1", "mips32": "t1"}[abiname]],
                                     flags=True, align=abiname != "mips32"))
+    # repeated runs: a Patch object that is used again must not carry state from its earlier uses into the result
+    from harness import abi_cpu as _AC
+    for isa in ("x64", "ia32", "arm64"):
+        chk.add("repeat/shared-patch/%s" % isa, _AC.h_shared_patch, params=dict(isa=isa), timeout=600)
     for isa, fmt in (("x64", "elf"), ("x64", "pe"), ("arm64", "elf"), ("ia32", "pe")):
         chk.add("order-callpatch/%s-%s" % (isa, fmt), OR.h_order_callpatch, params=dict(isa=isa, fmt=fmt))
     chk.bounds = dict(BOUNDS)
